@@ -358,6 +358,36 @@ pub fn run_scenarios(path: &str, out_prefix: &str, server_bin: &str, workdir: &s
             }
             writeln!(proc_out, "{}", json!({"ev": "served", "distinct_online_keys": st.keys_seen, "replies": st.replies, "answering_workers": answering})).unwrap();
         }
+        // ---- statistics audit: the real timers, queue, reporter thread and files. Known traffic, then long enough for the workers'
+        //      status timers (status_interval / 10) and the reporter (every status_interval) to flush it into the persistence
+        //      directory, then SIGTERM; every file is decoded and the column sums are compared with the traffic
+        let mut audit_exit: Option<(Option<i32>, u64)> = None;
+        if sc["stats_audit"].as_bool().unwrap_or(false) && sp.alive() {
+            let mut sent_valid = 0u64; let mut got = 0u64; let mut bytes = 0u64;
+            for (n_socks, junk) in [(12usize, 7usize), (9, 0), (5, 3)] {
+                let ex = probe(sp.port, n_socks, 1, &mut rng, &srv, 1500);
+                sent_valid += ex.len() as u64;
+                for e in &ex { for r in &e.replies { got += 1; bytes += r.len() as u64; } }
+                st.round(&ex, ltk_pub, &srv, &secrets, fault);
+                let js = UdpSocket::bind("127.0.0.1:0").unwrap();
+                for k in 0..junk { let d = rng.bytes(16 + 4 * k); let _ = js.send_to(&d, ("127.0.0.1", sp.port)); }
+                std::thread::sleep(Duration::from_millis(700));
+            }
+            let interval_ms = sc["status_interval"].as_u64().unwrap_or(1) * 1000;
+            // one publication period of the workers (interval / 10, jittered by up to 0.26 s), one reporter pass (1 s) and the
+            // reporter's next due time (at most one interval away)
+            std::thread::sleep(Duration::from_millis(interval_ms + interval_ms / 10 + 2000));
+            sp.signal("TERM");
+            let (code, ms) = sp.wait_exit(6000);
+            let (files, readable, rows) = crate::s_stats::decode_report_dir(&format!("{}/persist", sp.dir));
+            let mut sum = [0u64; 9];
+            for (_, c) in &rows { for k in 0..9 { sum[k] += c[k]; } }
+            let ips: std::collections::BTreeSet<String> = rows.iter().map(|(ip, _)| ip.clone()).collect();
+            writeln!(proc_out, "{}", json!({"ev": "audit", "files": files, "readable": readable, "rows": rows.len(), "ips": ips.into_iter().collect::<Vec<_>>(),
+                "valid": sum[0] + sum[1], "invalid": sum[2], "failed": sum[3], "responses": sum[6] + sum[7], "bytes": sum[8],
+                "status_interval": sc["status_interval"].as_u64().unwrap_or(600), "exp_valid": sent_valid, "exp_invalid": 10, "exp_responses": got, "exp_bytes": bytes, "exit_code": code.map(|c| c as i64).unwrap_or(-999), "exit_ms": ms})).unwrap();
+            audit_exit = Some((code, ms));
+        }
         // ---- health check: k simultaneous connections, while time service continues
         if let (Some(hp), Some(k)) = (sp.hc_port, sc["hc_conns"].as_u64()) {
             if sp.alive() {
@@ -396,6 +426,10 @@ pub fn run_scenarios(path: &str, out_prefix: &str, server_bin: &str, workdir: &s
         let mut flood_handles = vec![];
         let flood_stop = Arc::new(AtomicBool::new(false));
         let mut exit_ev = json!({"ev": "exit", "signalled": false});
+        if let Some((code, ms)) = audit_exit {
+            exit_ev = json!({"ev": "exit", "signalled": true, "sig": "TERM", "mode": "audit", "was_alive": true, "code": code.map(|c| c as i64).unwrap_or(-999),
+                             "ms": ms, "within_limit": code.is_some(), "limit_ms": 6000, "code_after_flood_stopped": code.map(|c| c as i64).unwrap_or(-999), "extra_ms": 0});
+        }
         if let Some(sg) = sc.get("signal").filter(|s| s.is_object()) {
             let mode = sg["mode"].as_str().unwrap_or("idle");
             if mode == "flood" { flood_handles = flood(sp.port, sg["senders"].as_u64().unwrap_or(3) as usize, flood_stop.clone()); }
